@@ -47,6 +47,11 @@ def one(rec, hub, tier, seed, letters, pat, pi, what, ai, assign):
         drv.do_whole_array(hub, U, sub, rng)
         drv.do_float32_targets(hub, U, sub, rng)
         drv.do_iterator_keys(hub, U, sub, rng)
+    elif what == "big":
+        from ..oracles import big
+
+        with hub.pause():  # judged by a vectorised twin (the label-keyed reference in the wrapper skips arrays of this size)
+            big.assign_cases(rec, hub, rng, 1)
     elif what == "history":
         sub = tuple(rng.permutation(list(letters))[: int(rng.integers(1, len(letters) + 1))])
         drv.do_history(hub, U, letters, sub, rng, 25 if tier == "quick" else 60)
@@ -62,7 +67,7 @@ def run(rec, hub, tier, seed, shard, nshards, budget):
     rec.exhaustive_spaces[space] = True
     phases = []
     for pi in range(len(patterns)):
-        phases += [[("read", pi, ai) for ai in range(len(reads))], [("write", pi, ai) for ai in range(len(writes))], [("misc", pi, ai) for ai in range(12)],
+        phases += [[("read", pi, ai) for ai in range(len(reads))], [("write", pi, ai) for ai in range(len(writes))], [("misc", pi, ai) for ai in range(12)], [("big", pi, ai) for ai in range(3 if tier == "quick" else 24)],
                    [("history", pi, ai) for ai in range(20 if tier == "quick" else 1500)]]
     work = interleave(*phases)
     for w, (what, pi, ai) in enumerate(work):
